@@ -23,6 +23,9 @@ pub struct Case {
     pub scheme_rs: bool,
     /// (packet index, queue) of the late add+publish
     pub late: Option<(usize, usize)>,
+    /// multiplex_files per queue when the queues differ (overrides `multiplex`)
+    #[serde(default)]
+    pub multiplex_per_queue: Option<Vec<u32>>,
 }
 
 /// object lengths with E=4, B=2: empty, 1 symbol, 2 blocks (4 symbols), 3 blocks (6 symbols)
@@ -53,7 +56,8 @@ pub fn run_case(c: &Case, g: &mut G) -> Option<(String, String)> {
     let r = catch(|| -> Option<(String, String)> {
         let mut sess = SessSpec::basic(OtiSpec::new(Scheme::NoCode, 1424, 64, 0, true));
         sess.interleave = c.interleave;
-        sess.queues = (0..c.queues.len()).map(|q| (q as u32, c.multiplex)).collect();
+        let mux = |q: usize| -> u32 { c.multiplex_per_queue.as_ref().map(|v| v[q]).unwrap_or(c.multiplex) };
+        sess.queues = (0..c.queues.len()).map(|q| (q as u32, mux(q))).collect();
         // catalogue in add order
         let mut cat: Vec<ObjSpec> = Vec::new();
         let mut order: Vec<(usize, u8)> = Vec::new();
@@ -154,8 +158,8 @@ pub fn run_case(c: &Case, g: &mut G) -> Option<(String, String)> {
                         }
                         let set = open_by_queue.entry(q).or_default();
                         set.insert(*t);
-                        if set.len() > c.multiplex.max(1) as usize {
-                            return Some(("C13/too-many-objects-in-transmission".into(), format!("queue {}: {} objects in transmission at once, multiplex_files = {}", q, set.len(), c.multiplex)));
+                        if set.len() > mux(q).max(1) as usize {
+                            return Some(("C13/too-many-objects-in-transmission".into(), format!("queue {}: {} objects in transmission at once, multiplex_files = {}", q, set.len(), mux(q))));
                         }
                         if set.len() >= 2 {
                             g.multiplexed += 1;
@@ -347,17 +351,36 @@ pub fn run(thorough: bool) -> i32 {
                         if scheme_rs && (interleave == 1 || !thorough && multiplex != 2) {
                             continue;
                         }
-                        cases.push(Case { queues: w.clone(), multiplex, interleave, reverse_add, scheme_rs, late: None });
+                        cases.push(Case { queues: w.clone(), multiplex, interleave, reverse_add, scheme_rs, late: None, multiplex_per_queue: None });
                         // one deviation: add+publish one more object at every packet index, into every queue
                         if multiplex <= 2 && interleave <= 2 && !scheme_rs {
                             for i in 0..=(total + 1).min(if thorough { 14 } else { 8 }) {
                                 for q in 0..w.len() {
-                                    cases.push(Case { queues: w.clone(), multiplex, interleave, reverse_add, scheme_rs, late: Some((i, q)) });
+                                    cases.push(Case { queues: w.clone(), multiplex, interleave, reverse_add, scheme_rs, late: Some((i, q)), multiplex_per_queue: None });
                                 }
                             }
                         }
                     }
                 }
+            }
+        }
+    }
+    // queues with different multiplex_files values (every assignment of {0,1,2,3} that is not uniform)
+    for w in &workloads {
+        let nq = w.len();
+        if nq < 2 || w.iter().all(|q| q.len() < 2) {
+            continue;
+        }
+        for code in 0..4u32.pow(nq as u32) {
+            let v: Vec<u32> = (0..nq).map(|q| (code / 4u32.pow(q as u32)) % 4).collect();
+            if v.windows(2).all(|x| x[0] == x[1]) {
+                continue;
+            }
+            for interleave in [1u8, 2] {
+                if !thorough && interleave == 2 {
+                    continue;
+                }
+                cases.push(Case { queues: w.clone(), multiplex: 0, interleave, reverse_add: false, scheme_rs: false, late: None, multiplex_per_queue: Some(v.clone()) });
             }
         }
     }
